@@ -45,6 +45,8 @@ class Ctx:
         self.notes = []
         self.cfg = "B"
         self._facts = {}
+        self._views = {}
+        self.view = None          # None: the program as written; "inlined": private helpers inlined into their callers
         self.rule_docs = {}
 
     # facts -------------------------------------------------------------
@@ -57,7 +59,19 @@ class Ctx:
                 raise build.BuildError("config %s: only %d bodies extracted (floor %d)"
                                        % (cfg, len(f.bodies), build.MIN_BODIES[cfg]))
             self._facts[cfg] = f
-        return self._facts[cfg]
+        from .inline import InlinedFacts, normalised
+        if self.view == "inlined":
+            if cfg not in self._views:
+                self._views[cfg] = InlinedFacts(self._facts[cfg])
+            return self._views[cfg]
+        key = ("norm", cfg)
+        if key not in self._views:
+            self._views[key] = normalised(self._facts[cfg])
+            nh = getattr(self._views[key], "new_helpers", None)
+            if nh:
+                self.note("config %s: %d private helper(s) not in tables/head_functions.json folded into their callers before "
+                          "analysis: %s" % (cfg, len(nh), ", ".join(nh[:8])))
+        return self._views[key]
 
     def configs(self):
         """Configurations to analyse in this tier."""
@@ -136,6 +150,53 @@ def run_property(prop, tier="quick", seed=0, explain=None):
         return 2
     known = load_known()
     known_keys = {k["key"]: k for k in known.get("findings", []) if k.get("property") == prop}
+    # Second view.  An obligation that does not hold on the program as written is re-examined on the same program with
+    # its private helper functions inlined into their callers (a semantics-preserving rewrite of the MIR): extracting
+    # or folding a private helper must not change a verdict.  Only failures are ever rescued, nothing is added.
+    failing = [o for o in ctx.obligations if not o.ok and vkey(prop, o) not in known_keys and o.rule != "ENGINE"]
+    if failing:
+        ctx2 = Ctx(prop, tier, seed)
+        ctx2.view = "inlined"
+        ctx2._facts = ctx._facts
+        try:
+            for cfg in sorted({o.cfg for o in failing}):
+                ctx2.cfg = cfg
+                mod.run(ctx2)
+            second = {}
+            for o in ctx2.obligations:
+                second.setdefault((o.cfg, o.rule, o.key), []).append(o)
+            absorbed = {}
+            for cfg, v in ctx2._views.items():
+                if isinstance(cfg, str):
+                    absorbed[cfg] = v.absorbed
+            first_keys = {(o.cfg, o.rule, o.key) for o in ctx.obligations}
+            # constructs that exist only in the second view: code of an absorbed helper, now seen inside its callers
+            moved_bad = {}
+            for (cfg, rule, key), alts in second.items():
+                if (cfg, rule, key) not in first_keys and any(not a.ok for a in alts):
+                    moved_bad.setdefault((cfg, rule), []).append([a for a in alts if not a.ok][0])
+            rescued = 0
+            for o in failing:
+                alt = second.get((o.cfg, o.rule, o.key))
+                if alt and all(a.ok for a in alt):
+                    o.ok = True
+                    o.what += "  [holds with private helpers inlined]"
+                    rescued += 1
+                elif alt is None and not o.key.startswith("floor:") and any(a in o.key for a in absorbed.get(o.cfg, ())):
+                    # about a construct inside a private helper that is inlined into all its callers: judged there
+                    bad = moved_bad.get((o.cfg, o.rule), [])
+                    if not bad:
+                        o.ok = True
+                        o.what += "  [inside a private helper; established in its callers]"
+                        rescued += 1
+                    else:
+                        o.detail = {"in_callers": [b.key[:200] for b in bad[:4]], "own": o.detail}
+            if rescued:
+                ctx.note("%d obligation(s) established on the view with private helpers inlined" % rescued)
+        except build.BuildError:
+            raise
+        except Exception as e:
+            ctx.note("second view failed: %s: %s" % (type(e).__name__, str(e)[:200]))
     viol = []
     knownhit = []
     seen = set()
